@@ -867,4 +867,38 @@ theorem fbigEq_iff (B : Nat) (hB : 2 ≤ B) (a b : FRepr) (ha : FCanon B a) (hb 
     rw [cmpCase6_eq_iff B hB s1 e1 s2 e2 z1 z2 an bn]
     simp [fbigEq, hf1, hf2]
 
+
+-- ================================================================== Hash for RBig
+
+theorem sOfInt_spec (W : Nat) (hW : 1 ≤ W) (x : Int) : SCanon W (sOfInt W x) ∧ (sOfInt W x).value W = x := by
+  refine ⟨⟨ofNat_canon W hW _, fun h => ?_⟩, ?_⟩
+  · have hx : x < 0 := by simpa [sOfInt] using h
+    show (ofNat W x.natAbs).value W ≠ 0
+    rw [ofNat_value W hW]; omega
+  · unfold sOfInt SRepr.value
+    simp only [ofNat_value W hW]
+    by_cases h : x < 0
+    · simp only [h, decide_true, if_true]; omega
+    · simp only [h, decide_false, Bool.false_eq_true, if_false]; omega
+
+/-- the hash feed of an `RBig` determines, and is determined by, its (reduced) components -/
+theorem QRepr.hashFeed_iff (W : Nat) (hW : 1 ≤ W) (a b : QRepr) :
+    a.hashFeed W = b.hashFeed W ↔ a = b := by
+  constructor
+  · intro h
+    simp only [QRepr.hashFeed, Prod.mk.injEq] at h
+    have ⟨ca, va⟩ := sOfInt_spec W hW a.num
+    have ⟨cb, vb⟩ := sOfInt_spec W hW b.num
+    have hn := (SRepr.hashFeed_iff W _ _ ca cb).mp h.1
+    rw [va, vb] at hn
+    have da : SCanon W ⟨false, ofNat W a.den⟩ := ⟨ofNat_canon W hW _, by simp⟩
+    have db : SCanon W ⟨false, ofNat W b.den⟩ := ⟨ofNat_canon W hW _, by simp⟩
+    have hd := (SRepr.hashFeed_iff W _ _ da db).mp h.2
+    simp only [SRepr.value_mk_false, ofNat_value W hW] at hd
+    obtain ⟨an, ad⟩ := a; obtain ⟨bn, bd⟩ := b
+    simp only at hn hd
+    have : ad = bd := by exact_mod_cast hd
+    rw [hn, this]
+  · rintro rfl; rfl
+
 end Dashu.Model
